@@ -1664,10 +1664,12 @@ func (ls *LState) GetInfo(what string, dbg *Debug, fn LValue) (LValue, error) {
 		case 'f':
 			retfn = true
 		case 'S':
-			if dbg.frame != nil && dbg.frame.Parent == nil {
-				dbg.What = "main"
-			} else if f.IsG {
+			if f.IsG {
 				dbg.What = "G"
+			} else if f.Proto.LineDefined == 0 {
+				// the main function of a chunk, however it is run (ldebug.c funcinfo), not just
+				// the bottom frame: loadstring/dofile/require chunks too, a coroutine body not
+				dbg.What = "main"
 			} else if dbg.frame != nil && dbg.frame.TailCall > 0 {
 				dbg.What = "tail"
 			} else {
